@@ -7,6 +7,7 @@ From SU.Model Require Import Ribbon.
 From SU.Spec Require Import RibbonSpec.
 From SU.Proofs Require Import RibbonProofs.
 From SU.Proofs Require Import RibbonExtraProofs.
+From SU.Proofs Require Import RibbonKillers.
 Open Scope Z_scope.
 
 (** [finger_is_pressing()] after any sample history is true exactly when the current
@@ -80,6 +81,44 @@ Theorem C15_press_spec_hist : forall cap fs sp dr pu (h : list rop),
 Proof. exact C15_press_spec_hist. Qed.
 Close Scope R_scope.
 
+(** the settling and finger-lift sample counts the constructor stores, in closed form: 1 ms and 2 ms of samples (the press rule above is stated through whatever the constructor stored, so a constructor with other times satisfied it) *)
+Theorem C15_ribbon_new_times : forall cap fs sp dr pu,
+  let r0 := ribbon_new cap fs sp dr pu in
+  rb_ignore r0 = (to_u32 fs * 1000) / 1000000 /\
+  rb_discard r0 = (to_u32 fs * 2000) / 1000000.
+Proof. exact ribbon_new_times. Qed.
+
+(** the helper's capacity in closed form: 15 ms + 2 ms of samples + 1 *)
+Theorem C15_capacity_value : forall fs : Z,
+  sample_rate_to_capacity fs = (fs * 15000) / 1000000 + (fs * 2000) / 1000000 + 1.
+Proof. exact capacity_value. Qed.
+
+(** the press rule with every count spelled out, for every supported rate and helper-sized buffer *)
+Theorem C15_press_after_capture_time : forall (fs : Z) sp dr pu samples,
+  100 <= fs <= 192000 ->
+  let cap := Z.to_nat (sample_rate_to_capacity fs) in
+  let r0 := ribbon_new cap (of_Z fs) sp dr pu in
+  rb_pressing (polls r0 samples)
+  = (Z.max (fs / 1000 - 1) 0 + (fs * 15 / 1000 + fs / 500 + 1)
+     <=? run_len (in_range r0) samples).
+Proof. exact press_after_capture_time. Qed.
+
+(** the same over histories with edge polls *)
+Theorem C15_press_after_capture_time_hist : forall (fs : Z) sp dr pu (h : list rop),
+  100 <= fs <= 192000 ->
+  let cap := Z.to_nat (sample_rate_to_capacity fs) in
+  let r0 := ribbon_new cap (of_Z fs) sp dr pu in
+  rb_pressing (rrun r0 h)
+  = (Z.max (fs / 1000 - 1) 0 + (fs * 15 / 1000 + fs / 500 + 1)
+     <=? run_len (in_range r0) (samples_of h)).
+Proof. exact press_after_capture_time_hist. Qed.
+
+(** at 10 kHz: on the 180th sample of an unbroken in-range run *)
+Theorem C15_press_10kHz : forall sp dr pu samples,
+  let r0 := ribbon_new (Z.to_nat (sample_rate_to_capacity 10000)) (of_Z 10000) sp dr pu in
+  rb_pressing (polls r0 samples) = (180 <=? run_len (in_range r0) samples).
+Proof. exact press_10kHz. Qed.
+
 Print Assumptions C15_press_spec.
 Print Assumptions C15_release_immediately.
 Print Assumptions C15_taps_do_not_add_up.
@@ -87,3 +126,8 @@ Print Assumptions C15_just_pressed.
 Print Assumptions C15_just_released.
 Print Assumptions C15_edge_polls_transparent.
 Print Assumptions C15_press_spec_hist.
+Print Assumptions C15_ribbon_new_times.
+Print Assumptions C15_capacity_value.
+Print Assumptions C15_press_after_capture_time.
+Print Assumptions C15_press_after_capture_time_hist.
+Print Assumptions C15_press_10kHz.
